@@ -64,8 +64,8 @@ type (
 		// Active receivers
 		// RegisterActiveReceiver registers an active receiver for watermark propagation
 		RegisterActiveReceiver(sourceShardID history.ClusterShardID, receiver ActiveReceiver)
-		// UnregisterActiveReceiver removes an active receiver
-		UnregisterActiveReceiver(sourceShardID history.ClusterShardID)
+		// UnregisterActiveReceiver removes an active receiver, only if it is still the registered one
+		UnregisterActiveReceiver(sourceShardID history.ClusterShardID, receiver ActiveReceiver)
 		// GetActiveReceiver returns the active receiver for the given source shard
 		GetActiveReceiver(sourceShardID history.ClusterShardID) (ActiveReceiver, bool)
 		// TerminatePreviousLocalReceiver checks if there is a previous local receiver for this shard and terminates it if needed
@@ -1065,11 +1065,14 @@ func (sm *shardManagerImpl) RegisterActiveReceiver(sourceShardID history.Cluster
 	sm.activeReceivers[sourceShardID] = receiver
 }
 
-// UnregisterActiveReceiver removes an active receiver
-func (sm *shardManagerImpl) UnregisterActiveReceiver(sourceShardID history.ClusterShardID) {
+// UnregisterActiveReceiver removes an active receiver, only if it is still the registered one
+// (a newer receiver for the same shard may have replaced it)
+func (sm *shardManagerImpl) UnregisterActiveReceiver(sourceShardID history.ClusterShardID, receiver ActiveReceiver) {
 	sm.activeReceiversMu.Lock()
 	defer sm.activeReceiversMu.Unlock()
-	delete(sm.activeReceivers, sourceShardID)
+	if current, exists := sm.activeReceivers[sourceShardID]; exists && current == receiver {
+		delete(sm.activeReceivers, sourceShardID)
+	}
 }
 
 // GetActiveReceiver returns the active receiver for the given source shard
